@@ -168,6 +168,12 @@ def check_names(chk, prog, env):
             chk.add(Finding('C02.alg-names', 'libjwt/jwt.c', 'jwt_str_alg', 'near-miss',
                             'jwt_str_alg(%r) = %s: a near-miss of an algorithm name must map to JWT_ALG_INVAL'
                             % (nm, sorted(map(str, to_alg.get(nm) or [])))))
+    n += 1
+    foreign = sorted(c for c in callees if c not in ('jwt_str_alg', 'jwt_strcmp', 'strcmp', 'strlen'))
+    if foreign:
+        bad += 1
+        chk.add(Finding('C02.alg-names', 'libjwt/jwt.c', 'jwt_str_alg', 'inexact-compare[%s]' % ','.join(foreign),
+                        'algorithm names are compared through %s: only full-string exact compares (jwt_strcmp, strcmp) are approved' % foreign))
     chk.rule('C02.alg-names', 'jwt_alg_str / jwt_str_alg are inverse bijections on the 15 RFC 7518 names; near-misses -> INVAL '
                               '(comparison loop interpreted on concrete operands)', n, bad, floor=60)
     cells = T.parse_head_table(prog, env)
